@@ -59,6 +59,9 @@ class Summary:
         self.unresolved = []      # [(node, text)]
         self.defaults_gv = []     # default-argument expressions reading gv
         self.stored = set()       # __init__ only: roots of what is stored into self.<sample field>
+        self.reads_gv = []        # nodes reading an attribute of the global gv
+        self.memoised = None      # decorator node when the function is cached (functools.lru_cache / cache)
+        self.global_writes = []   # (node, name): stores into module-level mutable objects of the package
 
     def key(self):
         return (frozenset(self.ret), frozenset(self.mutates), frozenset(self.attr_writes), len(self.gv_writes), len(self.rand), frozenset(self.stored))
@@ -96,7 +99,14 @@ class Effects:
     def _analyse(self, s: Summary):
         fi = s.fi
         s.gv_writes, s.rand, s.unresolved = [], [], []
+        s.reads_gv, s.global_writes = [], []
         s.calls = set()
+        s.memoised = None
+        for d in getattr(fi.node, "decorator_list", []):
+            f = d.func if isinstance(d, ast.Call) else d
+            r = self.pkg.resolve_expr(fi.module, fi.parent, f) if isinstance(f, ast.Attribute) else (self.pkg.resolve_name(fi.module, fi.parent, f.id) if isinstance(f, ast.Name) else None)
+            if r in ("functools.lru_cache", "functools.cache", "functools.cached_property") or (r or "").endswith((".memoize", ".cache", ".lru_cache")):
+                s.memoised = d
         env = {p: {(p, "")} for p in fi.params}
         fld = {}  # local var -> roots stored into its fields / elements
         self._ann = self._annotations(fi)
@@ -270,6 +280,7 @@ class Effects:
             self._store(t.value, vroots, st, fi, s, env, fld, aug)
         elif isinstance(t, ast.Subscript):
             self._check_gv_target(t, st, fi, s)
+            self._check_global_store(t, st, fi, s, env)
             self.roots(t.slice, fi, s, env, fld)
             br = self.roots(t.value, fi, s, env, fld)
             if br:
@@ -299,6 +310,15 @@ class Effects:
             if isinstance(root, ast.Name) and vroots:
                 fld.setdefault(root.id, set()).update(vroots)
 
+    def _check_global_store(self, t, st, fi, s, env):
+        root = t
+        while isinstance(root, (ast.Attribute, ast.Subscript)):
+            root = root.value
+        if isinstance(root, ast.Name) and root.id not in env and root.id not in fi.locals:
+            r = self.pkg.resolve_name(fi.module, fi, root.id)
+            if r and r.startswith(PKG + ".") and r != f"{PKG}.typing.gv":
+                s.global_writes.append((st, root.id))
+
     # ------------------------------------------------------------------ gv
     def _is_gv(self, node, fi):
         root = node
@@ -325,7 +345,10 @@ class Effects:
         if isinstance(e, ast.Constant):
             return set()
         if isinstance(e, ast.Attribute):
-            if self.pkg.resolve_expr(fi.module, fi, e) is not None and not (isinstance(_rootname(e), str) and _rootname(e) in env):
+            rr = self.pkg.resolve_expr(fi.module, fi, e)
+            if rr is not None and not (isinstance(_rootname(e), str) and _rootname(e) in env):
+                if rr.startswith(f"{PKG}.typing.gv."):
+                    s.reads_gv.append(e)
                 return set()
             br = self.roots(e.value, fi, s, env, fld)
             return {(p, _cap(path + "." + e.attr)) for (p, path) in br}
@@ -656,6 +679,11 @@ class Effects:
                     out |= self._apply_summary(m, [br] + args, kws, s, e)
                 return out
             if name in MUTATING_METHODS:
+                rn = _rootname(f.value)
+                if isinstance(rn, str) and rn not in env and rn not in fi.locals:
+                    r0 = self.pkg.resolve_name(fi.module, fi, rn)
+                    if r0 and r0.startswith(PKG + ".") and r0 != f"{PKG}.typing.gv":
+                        s.global_writes.append((e, rn))
                 if name in LIST_MUTATORS:
                     # a list/dict built locally is a fresh container even when its elements alias arguments
                     direct = isinstance(f.value, ast.Name) and f.value.id in fi.params and env.get(f.value.id) == {(f.value.id, "")}
